@@ -591,13 +591,23 @@ func shortLine(l string) string {
 }
 
 func c06Specs(quick bool) []*bfs.Spec {
-	if quick {
-		return []*bfs.Spec{{Prop: "C06", Name: "C06-q", Cfg: mintops.Config{Fee: 0}, Init: []string{"fund|8,8,4"}, Menu: c06Menu, Probe: c06Probe(false), Depth: 3}}
+	// a melt quote on the invoice of an own mint quote that is already paid / issued (accepted by the mint: a second
+	// payment of that quote): the states in which the internal-settlement path meets a quote that is not UNPAID
+	internal := func(name string, init ...string) *bfs.Spec {
+		return &bfs.Spec{Prop: "C06", Name: name, Cfg: mintops.Config{Fee: 0}, Init: append([]string{"fund|8,8,4"}, init...), Menu: c06Menu, Probe: c06Probe(false), Depth: 1}
 	}
-	return []*bfs.Spec{
+	sfx := map[bool]string{true: "-q", false: ""}[quick]
+	extra := []*bfs.Spec{
+		internal("C06-internal-of-issued"+sfx, "mq|8", "settle|1", "mint|1|exact", "meltqi|1"),
+		internal("C06-internal-of-paid"+sfx, "mq|8", "settle|1", "pollq|1", "meltqi|1"),
+	}
+	if quick {
+		return append([]*bfs.Spec{{Prop: "C06", Name: "C06-q", Cfg: mintops.Config{Fee: 0}, Init: []string{"fund|8,8,4"}, Menu: c06Menu, Probe: c06Probe(false), Depth: 3}}, extra...)
+	}
+	return append(extra, []*bfs.Spec{
 		{Prop: "C06", Name: "C06-fee0", Cfg: mintops.Config{Fee: 0}, Init: []string{"fund|8,8,4"}, Menu: c06Menu, Probe: c06Probe(true), Depth: 4},
 		{Prop: "C06", Name: "C06-fee100", Cfg: mintops.Config{Fee: 100}, Init: []string{"fund|8,8,4"}, Menu: c06Menu, Probe: c06Probe(false), Depth: 3},
-	}
+	}...)
 }
 
 var c06All = specMap(c06Specs(true), c06Specs(false))
@@ -607,8 +617,19 @@ func init() {
 		Run: func(c *rt.Ctx) {
 			c.Cov["rule"] = "E3 builds every state reachable by <= d honest operations from {mint quote (plain / NUT-20), settle, poll, mint, swap, melt quote, melt x {Succeeded, Pending, Failed->NotFound}, rotate}; in each distinct state the request grammar is sent through the real HTTP handler under recover(): for each of the 7 POST endpoints a valid request for this state and all its single structural mutants (every field dropped / null / retyped to string, number, bool, array, object; lists emptied, with a duplicated element, truncated; strings empty / non-hex / odd hex / 10000 chars / wrong-length hex / unknown id / upper-case / shortened; numbers 0, -1, 1.5, 2^63, 2^64-1, 1e30; thorough: all pairs of list-field mutants), whole-body forms (empty, null, [], string, number, {}, truncated, trailing garbage, 5000-deep nesting), wrong Content-Type, other HTTP methods, unsupported {method} path segment, GET endpoints with unknown / non-hex / long / SQL-like ids, and the semantically invalid requests (used input, outputs over inputs, unknown / inactive keyset, duplicate input, unpaid / issued quote, over amount, missing NUT-20 signature, insufficient melt inputs) and requests carrying optional fields in unusual shapes (a NUT-20 signature on a quote without key: well-formed / zeros / short / non-hex / empty / number; mint-quote pubkey not on the curve / garbage / uncompressed / x-only / non-hex; 5000-char description; melt-quote options mpp 1000 / 0 / empty / null / 2^64-1 / -1 / unknown option / array / string). Oracle: no panic; every non-200 answer leaves the dump of all tables and the Lightning ledger byte-identical and triggers no payment; afterwards every honest request of the state is answered 200"
 			runSpecs(c, c06Specs(c.Quick()))
+			c.Cov["rule_schedules"] = "E1 (beyond the statement's quantifier): two swaps with different inputs asking for the same outputs, every interleaving at MintDB call granularity with at most B preemptions; a swap answered with an error leaves its input UNSPENT, an accepted one SPENT, at most one is accepted"
+			b := 2
+			if !c.Quick() {
+				b = 3
+			}
+			runSched(c, "C06", []string{"R1-swap-swap-same-outputs"}, b)
 		},
-		Worker: bfs.Worker(c06All),
-		Replay: func(p string) int { return bfs.ReplayFile("C06", c06All, p) },
+		Worker: dispatchWorker(bfs.Worker(c06All)),
+		Replay: func(p string) int {
+			if code, ok := replaySched("C06", p); ok {
+				return code
+			}
+			return bfs.ReplayFile("C06", c06All, p)
+		},
 	})
 }
